@@ -239,7 +239,8 @@ def r_sem_table(e, R):
             R.check(a3 == init.params[1:4], "R-SEM-TABLE", "SemLock.__init__: forwards (kind, value, maxvalue) in order to the C semaphore", init.short, norm(n)[:70],
                     f"the C semaphore is created with {a3} instead of {init.params[1:4]}", e.loc(init, n))
             un = n.args[4] if len(n.args) > 4 else None
-            okd = isinstance(un, ast.Name) and all(isinstance(d, ast.Constant) and d.value is False for d in e.local_defs(init, un.id))
+            okd = (isinstance(un, ast.Constant) and un.value is False) or (
+                isinstance(un, ast.Name) and all(isinstance(d, ast.Constant) and d.value is False for d in e.local_defs(init, un.id)))
             R.check(okd, "R-SEM-TABLE", "SemLock.__init__: unlink_now is False (the name must stay until the finaliser/tracker unlinks it)", init.short, norm(n)[:70],
                     "the semaphore name is unlinked at creation: children cannot rebuild it by name", e.loc(init, n))
     # methods delegate to the C object
